@@ -150,7 +150,9 @@ Theorem cov_eye_entries p X dof j k : (j < p)%nat -> (k < p)%nat ->
     ((b2 / d2) * (m * kron ROps j k) + (1 - b2 / d2) * entry ROps s j k) * n / dof.
 Proof.
   intros Hj Hk. cbv zeta. unfold cov_eye. destruct (eye_lambda ROps p X) as [[b2 d2] m] eqn:E.
-  intros Hd. rewrite entry_tabulate by assumption. rsimp2.
+  intros Hd. assert (Hz : neqb ROps d2 (n0 ROps) = false).
+  { unfold neqb. rsimp2. destruct (Rle_dec d2 0); [lra|reflexivity]. }
+  rewrite Hz. rewrite entry_tabulate by assumption. rsimp2.
   replace ((d2 - b2) / d2) with (1 - b2 / d2) by (field; lra). unfold Rdiv. ring.
 Qed.
 
